@@ -26,6 +26,7 @@ def run(ctx):
         ctx.guard("C17", "accumulate", lambda: typestate.accumulate_exact(ctx, prog))
         ctx.guard("C17", "validnorm", lambda: typestate.valid_normalized_shape(ctx, prog))
         ctx.guard("C17", "validcontent", lambda: typestate.valid_content(ctx, prog))
+        ctx.guard("C17", "sequences", lambda: typestate.sequences_exact(ctx, prog))
         ctx.guard("C17", "like", lambda: fields.like_index(ctx, prog, scope=r"internals::compare::|<internals::compare::", floor=3))
         ctx.guard("C17", "complete", lambda: fields.dest_complete(ctx, prog, scope=r"internals::compare::|<internals::compare::", floor=1))
         ctx.guard("C17", "vis", lambda: vis.representation_private(ctx, prog))
@@ -40,8 +41,9 @@ def run(ctx):
         ctx.guard("C17", "traits", lambda: vis.trait_census(ctx, prog, scope='position_array::|FuzzyHashCompareTarget'))
         ctx.guard("C17", "casts", lambda: casts.census(ctx, prog, scope='compare::position_array::', floor=3))
         ctx.guard("C17", "const values", lambda: data.const_census(ctx, prog, data.CONST_SCOPES["C17"], floor=1))
-        ctx.guard("C17", "summaries", lambda: summary.check(ctx, prog, 'compare::position_array::|FuzzyHashCompareTarget::(new|init_from|block_hash_[12]|is_equiv|full_eq|log_block_size|block_size)|core::default::Default>::default', floor=10))
-        ctx.guard("C17", "path summaries", lambda: summary.check_paths(ctx, prog, 'compare::position_array::|FuzzyHashCompareTarget::(new|init_from|block_hash_[12]|is_equiv|full_eq|log_block_size|block_size)|core::default::Default>::default', floor=6))
+        ctx.guard("C17", "element-asserts", lambda: validate.element_range_asserts(ctx, prog))
+        ctx.guard("C17", "summaries", lambda: summary.check(ctx, prog, 'compare::position_array::|internals::utils::|FuzzyHashCompareTarget::(new|init_from|block_hash_[12]|is_equiv|full_eq|log_block_size|block_size)|core::default::Default>::default', floor=10))
+        ctx.guard("C17", "path summaries", lambda: summary.check_paths(ctx, prog, 'compare::position_array::|internals::utils::|FuzzyHashCompareTarget::(new|init_from|block_hash_[12]|is_equiv|full_eq|log_block_size|block_size)|core::default::Default>::default', floor=6))
         if c in ("dbg", "unsafe_dbg", "strict_dbg"):
             ctx.guard("C17", "beliefs", lambda: beliefs.census(ctx, prog, beliefs.SCOPES["C17"][0], floor=beliefs.SCOPES["C17"][1]))
     if ctx.tier == "thorough":
